@@ -5,7 +5,7 @@ R-EXC-TYPES, R-KILL-TREE, R-WORKER-UNPICKLE.
 """
 import ast
 
-from ..model import func_nodes, norm, AnalysisError
+from ..model import func_nodes, norm, AnalysisError, static_truth
 from ..cfg import calls_in, _walk_noscope
 from .util import (none_test, node_has_effect, effect_nodes, calls_method_of, recv_call, stmt_of, parent,
                    cfg_nodes)
@@ -337,6 +337,32 @@ def r_mgr_total(e, R):
                 n += 1
                 R.fail("R-MGR-TOTAL", f.short, norm(rn.ast)[:60], "an exception is raised on the manager's detection path and not handled: the "
                        "manager thread dies before the pool is flagged broken", e.loc(f, rn.ast))
+    # non-blocking queue operations signal "nothing there" / "no room" by raising: on the manager thread (and on the worker's
+    # idle-timeout read) that signal must be handled where it is raised
+    qobjs = a.work_ids | a.callq | a.resq
+    for q in sorted(a.manager_funcs) + [a.worker_main.qualname]:
+        f = e.prog.funcs[q]
+        g = e.cfg(f)
+        for c in [x for x in func_nodes(f) if isinstance(x, ast.Call) and isinstance(x.func, ast.Attribute)]:
+            at = c.func.attr
+            if not (e.receiver_objs(f, c, (at,)) & qobjs):
+                continue
+            if at in ("get_nowait",) or (at == "get" and (e.is_nonblocking(c) or any(k.arg == "timeout" for k in c.keywords))):
+                exc = "Empty"
+            elif at == "put_nowait" or (at == "put" and any(k.arg in ("block", "timeout") and not (isinstance(k.value, ast.Constant) and k.value.value in (True, None))
+                                                          for k in c.keywords)):
+                exc = "Full"
+            else:
+                continue
+            n += 1
+            ok = False
+            for cn in cfg_nodes(e, f, c):
+                hs = [m for m, l in cn.succ if l == "exc" and m.kind == "except"]
+                ok = any(h.ast.type is not None and norm(h.ast.type).split(".")[-1] == exc for h in hs)
+            R.check(ok, "R-MGR-TOTAL", f"{f.short}: non-blocking `{norm(c)[:50]}` handles queue.{exc} itself", f.short, norm(c)[:60],
+                    f"`{norm(c)[:50]}` raises queue.{exc} when there is " + ("nothing to read" if exc == "Empty" else "no room") + ", which is the normal outcome of a "
+                    f"non-blocking call, and no `except queue.{exc}` protects it: the " + ("manager thread" if q != a.worker_main.qualname else "worker") +
+                    " dies (or treats it as a crash) instead of carrying on", e.loc(f, c))
     R.info["mgr_total_partial_calls"] = n
     if n < 1:
         R.ok("R-MGR-TOTAL", "no value-partial stdlib call on the manager's detection path", None)
@@ -634,7 +660,103 @@ def r_kill_tree(e, R):
             cal |= e.callees_of(n)
     R.check({fp.qualname, fw.qualname} <= cal, "R-KILL-TREE", "kill_process_tree dispatches to both variants", kt.short, "dispatch",
             "kill_process_tree no longer reaches both implementations", e.loc(kt, kt.node))
-    R.floor("R-KILL-TREE", 9)
+    # ---- polarity and totality of the two implementations (scenario obligations, see rules/scenario.py)
+    from . import scenario as SC
+    kg = e.cfg(kt)
+    callsq = lambda f_, quals: (lambda n: any(e.callees_of(c) & set(quals) for c in calls_in(n)))
+    ps = SC.name("psutil")
+    up = SC.name(kt.params[1]) if len(kt.params) > 1 else None
+    if up is None:
+        raise AnalysisError("kill_process_tree: use_psutil parameter not found")
+    SC.must(e, R, "R-KILL-TREE", kt, "psutil is importable and allowed", [(ps, "some"), (up, "T")], callsq(kt, [fp.qualname]), "uses the psutil implementation",
+            "the preferred implementation is never used")
+    SC.must(e, R, "R-KILL-TREE", kt, "psutil is not installed", [(ps, "none")], callsq(kt, [fw.qualname]), "falls back to the pgrep/taskkill implementation",
+            "without psutil nothing is killed")
+    SC.never(e, R, "R-KILL-TREE", kt, "psutil is not installed", [(ps, "none")], callsq(kt, [fp.qualname]), "the psutil implementation",
+             "AttributeError on None: the workers of a forced shutdown / broken pool are never killed")
+    # a process of the tree that is already gone must not abort the kill of the others
+    for n in gp.nodes:
+        for c in calls_in(n):
+            if isinstance(c.func, ast.Attribute) and c.func.attr in ("kill", "children") and not (e.objs(fp, c.func.value) & a.process_objs):
+                st = stmt_of(e, fp, c)
+                trs = []
+                p_ = e.prog.parent.get(id(st))
+                ch = st
+                while p_ is not None and p_ is not fp.node:
+                    if isinstance(p_, ast.Try) and any(ch is b for b in p_.body):
+                        trs.append(p_)
+                    ch = p_
+                    p_ = e.prog.parent.get(id(p_))
+                hts = {("bare" if h.type is None else norm(h.type)) for t_ in trs[:1] for h in t_.handlers}
+                okh = bool(hts & {"bare", "psutil.NoSuchProcess", "psutil.Error", "Exception", "BaseException"})
+                # one try per kill: the try protecting a kill inside the loop must itself be inside the loop
+                own = not _in_loop(e, c) or (bool(trs) and _in_loop(e, trs[0]))
+                R.check(okh and own, "R-KILL-TREE", f"{fp.short}: `{norm(c.func)}` tolerates a process that is already gone, without abandoning the others", fp.short,
+                        f"{norm(c)[:50]} / except {sorted(hts)}", f"`{norm(c)[:50]}` is protected by {sorted(hts) or 'no handler'}"
+                        + ("" if own else " around the whole loop") + ": a descendant (or the worker) that exited in the meantime raises "
+                        "NoSuchProcess, the remaining processes are not killed and the worker is joined alive", e.loc(fp, c))
+    # _kill: the signal is sent to the pid it was given; only ESRCH is swallowed
+    fk = e.prog.func(U + "_kill")
+    gk = e.cfg(fk)
+    oskill = lambda n: any(norm(c.func) == "os.kill" and c.args and isinstance(c.args[0], ast.Name) and c.args[0].id == fk.params[0] for c in calls_in(n))
+    esc = gk.escape_path(gk.entry, oskill, use_exc=False)
+    R.check(esc is None and any(oskill(n) for n in gk.nodes), "R-KILL-TREE", f"{fk.short}: sends the kill signal to the given pid on every path", fk.short, "os.kill(pid, sig)",
+            "the pgrep implementation lists the tree but never kills anything", e.loc(fk, fk.node))
+
+    def esrch(is_esrch):
+        def ev(x):
+            if isinstance(x, ast.Compare) and len(x.ops) == 1 and isinstance(x.ops[0], (ast.Eq, ast.NotEq)):
+                sides = [norm(x.left), norm(x.comparators[0])]
+                if any(s_.endswith(".errno") for s_ in sides) and any(s_.endswith("ESRCH") for s_ in sides):
+                    return is_esrch == isinstance(x.ops[0], ast.Eq)
+            return None
+        return ev
+    hk = [n for n in gk.nodes if n.kind == "except"]
+    reraise = lambda n: n.kind == "stmt" and isinstance(n.ast, ast.Raise)
+    for h in hk:
+        ok1 = gk.find_path(h, reraise, use_exc=False, edge_ok=SC.Facts([], [esrch(True)]).edge_ok()) is None
+        ok2 = gk.escape_path(h, reraise, use_exc=False, edge_ok=SC.Facts([], [esrch(False)]).edge_ok()) is None and any(reraise(n) for n in gk.nodes)
+        R.check(ok1, "R-KILL-TREE", f"{fk.short}: 'no such process' is not an error", fk.short, "errno == ESRCH", "a process that already exited aborts the kill of the rest of the tree",
+                e.loc(fk, h.ast))
+        R.check(ok2, "R-KILL-TREE", f"{fk.short}: any other error is raised (so that the caller falls back to killing the worker itself)", fk.short, "errno != ESRCH: raise",
+                "a failed kill (EPERM ...) is silently ignored: the process survives and the caller believes the tree is dead", e.loc(fk, h.ast))
+    # pgrep exits 1 when there are no children: not an error; anything else is
+    def noch(is_one):
+        def ev(x):
+            if isinstance(x, ast.Compare) and len(x.ops) == 1 and isinstance(x.ops[0], (ast.Eq, ast.NotEq)):
+                sides = [x.left, x.comparators[0]]
+                if any(norm(s_).endswith(".returncode") for s_ in sides) and any(isinstance(s_, ast.Constant) and s_.value == 1 for s_ in sides):
+                    return is_one == isinstance(x.ops[0], ast.Eq)
+            return None
+        return ev
+    for h in [n for n in gr.nodes if n.kind == "except"]:
+        ok1 = gr.find_path(h, reraise, use_exc=False, edge_ok=SC.Facts([], [noch(True)]).edge_ok()) is None and \
+            gr.find_path(h, lambda n: n in selfk, use_exc=False, edge_ok=SC.Facts([], [noch(True)]).edge_ok()) is not None
+        ok2 = gr.escape_path(h, reraise, use_exc=False, edge_ok=SC.Facts([], [noch(False)]).edge_ok()) is None and any(reraise(n) for n in gr.nodes)
+        R.check(ok1, "R-KILL-TREE", f"{fr.short}: a childless process (pgrep exit status 1) is still killed", fr.short, "returncode == 1", "leaf processes of the tree are never killed",
+                e.loc(fr, h.ast))
+        R.check(ok2, "R-KILL-TREE", f"{fr.short}: a failing pgrep is reported to the caller", fr.short, "returncode != 1: raise",
+                "when the children cannot be listed they are silently skipped", e.loc(fr, h.ast))
+    # every listed child is visited
+    fors = [n for n in func_nodes(fr) if isinstance(n, ast.For)]
+    okf = any(isinstance(fo.iter, ast.Call) and isinstance(fo.iter.func, ast.Attribute) and fo.iter.func.attr in ("splitlines", "split") and
+              any(isinstance(c, ast.Call) and e.callees_of(c) & {fr.qualname} for c in ast.walk(fo)) and
+              not any(isinstance(x, (ast.Break, ast.Return)) for x in ast.walk(fo)) for fo in fors)
+    R.check(okf, "R-KILL-TREE", f"{fr.short}: recurses into every listed child", fr.short, "for cpid in children: recurse", "only some children are killed", e.loc(fr, fr.node))
+    # the fallback of the fallback: when listing/killing descendants fails, the worker itself is still killed
+    hw = [n for n in gw.nodes if n.kind == "except"]
+    pk = lambda n: any(isinstance(c.func, ast.Attribute) and c.func.attr in ("kill", "terminate") and c.func.value.id == fw.params[0] for c in calls_in(n)
+                       if isinstance(c.func, ast.Attribute) and isinstance(c.func.value, ast.Name))
+    R.check(bool(hw) and all((h.ast.type is None or norm(h.ast.type) in ("Exception", "BaseException")) and
+                             gw.escape_path(h, pk, use_exc=False) is None and any(pk(n) for n in gw.nodes) for h in hw), "R-KILL-TREE",
+            f"{fw.short}: if the descendants cannot be listed or killed, the worker itself is still killed (any Exception)", fw.short, "except Exception: process.kill()",
+            "a failure of pgrep/taskkill leaves the worker alive and process.join() blocks forever", e.loc(fw, fw.node))
+    arm = [n for n in gw.nodes for c in calls_in(n) if e.callees_of(c) & {fr.qualname}]
+    R.check(bool(arm) and gw.escape_path(gw.entry, lambda n: n in arm, use_exc=False,
+                                         edge_ok=lambda n, m, l: not (n.kind == "test" and static_truth(n.ast) is not None and (l == "T") != static_truth(n.ast))) is None,
+            "R-KILL-TREE", f"{fw.short}: on this platform the recursive pgrep kill is used", fw.short, "_posix_recursive_kill(process.pid)",
+            "the POSIX arm of the fallback no longer kills the tree", e.loc(fw, fw.node))
+    R.floor("R-KILL-TREE", 20)
 
 
 def _in_loop(e, node):
